@@ -241,10 +241,10 @@ def run(ctx):
         "spec C20/Spec.v written from FIPS-197 / SP 800-38A, validated by the published vectors (C20/Vectors.v, kernel)",
         "hand-written model C20/Model.v of _pypdf_aes_fallback.py, tied by the differential run (vm_compute)",
         "Python bytes / memoryview / bytearray slicing semantics as modelled by lists (firstn/skipn)",
-        "secrets.token_bytes is a parameter (the IV) of the model; the harness records the IV it returned",
+        "the IV is a parameter of the model; the harness records it from the first 16 bytes of the wrapper's output; freshness is tested (distinct, no replay after random.seed / with frozen clocks), not proved",
     ]
     ctx.assumptions += ["list elements are bytes (< 256) — guaranteed by Python's bytes type",
-                        "single-threaded use of the module-level round-key cache (no interleaving modelled)"]
+                        "no interleaving of threads inside _get_round_keys is modelled (calls from a worker thread, sequentially, are tested by env_sweep)"]
     m = gen_tables(ctx)
     rng = ctx.rng
     R = Run(ctx, m)
@@ -493,6 +493,78 @@ def run(ctx):
                                 ctx.finding(f"{f.__name__}:twin-keys:keylen={n}", f"{f.__name__} wrong after a history of keys differing in one "
                                             f"byte (key {k.hex()}, iv {iv.hex()})", {"key": k, "iv": iv, "data": data, "history": hist, "got": r})
 
+    # ---- rejection grid: every combination of IV length x data length (lengths that compensate each other included),
+    #      every key length; accepted exactly when key in {16,24,32}, len(iv) == 16 and 16 | len(data)
+    gkey = {n: rkey(rng, n) for n in (0, 1, 15, 16, 17, 24, 31, 32, 33, 48)}
+    iv_lens = [0, 1, 8, 15, 16, 17, 24, 31, 32, 48]
+    data_lens = [0, 1, 8, 15, 16, 17, 24, 31, 32, 33, 40, 48]
+    for kl, ivl, dl in [(kl, ivl, dl) for kl in gkey for ivl in iv_lens for dl in data_lens]:
+        if kl not in (16, 24) and not (ivl in (16, 0, 32) and dl in (0, 16, 17, 32)):
+            continue                                 # full IV x data grid for two good key sizes, a cross for the others
+        k, iv, data = gkey[kl], rkey(rng, ivl), rkey(rng, dl)
+        good = kl in (16, 24, 32) and ivl == 16 and dl % 16 == 0
+        for dec, f, rf in ((False, m.aes_cbc_encrypt, ref.cbc_enc), (True, m.aes_cbc_decrypt, ref.cbc_dec)):
+            R.set_history([])
+            ok, r = R.call(f.__name__, f, k, iv, data)
+            if not ok:
+                continue
+            R.add(f"CCbc {cbool(dec)} [] {cb(k)} {cb(iv)} {cb(data)} {copt(r)}", ("cbc", dec, [], k, iv, data), good, f"{f.__name__}(length-grid)")
+            if (r is not None) != good or (good and r != rf(k, iv, data)):
+                ctx.finding(f"{f.__name__}-length-grid:key={kl},iv={ivl},data={dl}",
+                            f"{f.__name__} with key/iv/data lengths {kl}/{ivl}/{dl} " + (f"returned {len(r)} bytes instead of raising ValueError"
+                            if r is not None and not good else "raised ValueError" if r is None else "differs from the reference"),
+                            {"key": k, "iv": iv, "data": data, "got": r})
+        if ivl == 16:
+            good = kl in (16, 24, 32) and dl % 16 == 0
+            for dec, f in ((False, m.aes_ecb_encrypt), (True, m.aes_ecb_decrypt)):
+                R.set_history([])
+                ok, r = R.call(f.__name__, f, k, data)
+                if not ok:
+                    continue
+                R.add(f"CEcb {cbool(dec)} [] {cb(k)} {cb(data)} {copt(r)}", ("ecb", dec, [], k, data), good, f"{f.__name__}(length-grid)")
+                if (r is not None) != good or (good and r != ref.ecb(k, data, dec)):
+                    ctx.finding(f"{f.__name__}-length-grid:key={kl},data={dl}", f"{f.__name__} with key/data lengths {kl}/{dl} "
+                                + ("accepted" if r is not None and not good else "rejected or wrong"), {"key": k, "data": data, "got": r})
+
+    # ---- environment: the results must not depend on the thread, logging level, time zone or cwd
+    import common
+    env_cases = []
+    for n in (16, 24, 32):
+        for _ in range(6):
+            k, iv = rkey(rng, n), rkey(rng, 16)
+            data = rkey(rng, 16 * rng.randrange(0, 5))
+            env_cases += [("ecb-enc", k, b"", data), ("ecb-dec", k, b"", data), ("cbc-enc", k, iv, data), ("cbc-dec", k, iv, data),
+                          ("expand", k, b"", b""), ("round-keys", k, b"", b"")]
+        env_cases += [("cbc-dec", rkey(rng, n), rkey(rng, 8), rkey(rng, 24)), ("cbc-enc", rkey(rng, n), rkey(rng, 16), rkey(rng, 17)),
+                      ("ecb-enc", rkey(rng, n + 1), b"", rkey(rng, 16))]
+        for ln in (0, 1, 15, 16, 17, 33):
+            env_cases += [("wrapper-roundtrip", rkey(rng, n), b"", rkey(rng, ln))]
+        env_cases += [("wrapper-dec", rkey(rng, n), b"", rkey(rng, ln)) for ln in (0, 16, 31, 48)]
+
+    def env_fn(c):
+        op, k, iv, data = c
+        if op == "ecb-enc":
+            return m.aes_ecb_encrypt(k, data)
+        if op == "ecb-dec":
+            return m.aes_ecb_decrypt(k, data)
+        if op == "cbc-enc":
+            return m.aes_cbc_encrypt(k, iv, data)
+        if op == "cbc-dec":
+            return m.aes_cbc_decrypt(k, iv, data)
+        if op == "expand":
+            return [bytes(x) for x in m._expand_key(k)]
+        if op == "round-keys":
+            return [bytes(x) for x in m._get_round_keys(k)]
+        m.patch_pypdf_fallback_aes()
+        import pypdf._crypt_providers._fallback as fb
+        if op == "wrapper-dec":
+            return fb.CryptAES(k).decrypt(data)
+        ct = fb.CryptAES(k).encrypt(data)       # the IV differs per call: compare what must be stable
+        pad = 16 - len(data) % 16
+        return (len(ct), ct[16:] == ref.cbc_enc(k, ct[:16], data + bytes([pad]) * pad), fb.CryptAES(k).decrypt(ct))
+    common.env_sweep(ctx, "aes-public-api", env_fn, env_cases,
+                     describe=lambda c: f"{c[0]}(key {c[1].hex()}, iv {c[2].hex()}, {len(c[3])} bytes of data)")
+
     # ---- cache histories
     for t in range(ctx.n(40, 400)):
         hist = history() + history()
@@ -585,87 +657,106 @@ def run(ctx):
         ctx.extra["cryptaes_wrapper"] = f"not reachable: {e!r}"
     ctx.extra["pypdf_patched"] = bool(patched)
     if patched:
-        real_token = m.secrets.token_bytes
-        try:
-            for n in (16, 24, 32):
-                for ln in range(0, 65):
-                    k, iv, msg = rkey(rng, n), rkey(rng, 16), rkey(rng, ln)
-                    m.secrets.token_bytes = lambda c, _iv=iv: _iv if c == 16 else real_token(c)
-                    R.set_history([])
-                    ok, ct = R.call("CryptAES.encrypt", CryptAES(k).encrypt, msg)
-                    if not ok:
-                        continue
-                    R.add(f"CStreamEnc {cb(k)} {cb(iv)} {cb(msg)} {copt(ct)}", ("stream-enc", k, iv, msg), True, "CryptAES.encrypt")
-                    exp = iv + ref.cbc_enc(k, iv, msg + bytes([16 - ln % 16]) * (16 - ln % 16))
-                    R.set_history([])
-                    ok2, back = R.call("CryptAES.decrypt", CryptAES(k).decrypt, ct) if ct is not None else (True, None)
-                    if ct != exp or back != msg:
-                        ctx.finding(f"stream:keylen={n}", f"CryptAES wrapper: encrypt != IV||CBC(pad(m)) or decrypt(encrypt(m)) != m "
-                                    f"for len(m)={ln}", {"key": k, "iv": iv, "message": msg, "ciphertext": ct, "decrypted": back})
-                    if ct is not None and ok2:
-                        R.add(f"CStreamDec {cb(k)} {cb(ct)} {copt(back)}", ("stream-dec", k, ct), True, "CryptAES.decrypt")
-            m.secrets.token_bytes = real_token
-            # messages ending in their own pad value / long messages / extreme IVs through the wrapper
-            wl = []
-            for ln in range(0, 49):
-                wl += [(rkey(rng, (16, 24, 32)[ln % 3]), rkey(rng, 16), d) for d in padlike_messages(ln)]
-            for nb in (64, 65, 128, 129) if ctx.tier == "quick" else (63, 64, 65, 66, 127, 128, 129, 130, 200, 257):
-                for tail in (0, 15):
-                    wl.append((rkey(rng, (16, 24, 32)[nb % 3]), rkey(rng, 16), rkey(rng, 16 * nb - tail)))
-            wl += [(rkey(rng, 16), b"\xff" * 16, b"\x10" * 16), (rkey(rng, 32), bytes(16), b"\x10" * 32), (rkey(rng, 24), b"\xff" * 16, b"")]
-            for k, iv, msg in wl:
-                m.secrets.token_bytes = lambda c, _iv=iv: _iv if c == 16 else real_token(c)
+        # The IV is whatever the wrapper drew: it is RECORDED from the output (the property says the IV is the
+        # 16-byte prefix), so the harness does not depend on which generator the module uses.
+        def wrapper_case(k, msg, kind, coq=True):
+            ln = len(msg)
+            R.set_history([])
+            ok, ct = R.call("CryptAES.encrypt", CryptAES(k).encrypt, msg)
+            if not ok:
+                return None
+            iv = ct[:16] if ct is not None else b""
+            padded = msg + bytes([16 - ln % 16]) * (16 - ln % 16)
+            good_ct = ct is not None and len(ct) == 16 + len(padded) and ct[16:] == ref.cbc_enc(k, iv, padded)
+            R.set_history([])
+            ok2, back = R.call("CryptAES.decrypt", CryptAES(k).decrypt, ct) if ct is not None else (True, None)
+            if coq:
+                R.add(f"CStreamEnc {cb(k)} {cb(iv)} {cb(msg)} {copt(ct)}", ("stream-enc", k, iv, msg), True, f"CryptAES.encrypt{kind}")
+                if ok2 and ct is not None:
+                    R.add(f"CStreamDec {cb(k)} {cb(ct)} {copt(back)}", ("stream-dec", k, ct), True, f"CryptAES.decrypt{kind}")
+            else:
+                ctx.case(("stream-long", k, iv, ln), True, "CryptAES(long;py)")
+            if not good_ct or back != msg:
+                what = ("decrypt(encrypt(m)) returned a %d-byte message for a %d-byte m" % (len(back), ln)) if back is not None and good_ct \
+                    else "encrypt != IV||CBC(pad m)" if not good_ct else "decrypt(encrypt(m)) raised ValueError"
+                ctx.finding(f"stream{kind}:keylen={len(k)}:len%16={ln % 16}:blocks={ln // 16}", f"CryptAES wrapper: {what} (len(m)={ln}, m ends in {msg[-3:].hex()})",
+                            {"key": k, "iv": iv, "message": msg, "ciphertext": ct, "decrypted": back})
+            return ct
+
+        for n in (16, 24, 32):
+            for ln in range(0, 65):
+                wrapper_case(rkey(rng, n), rkey(rng, ln), "")
+        # messages ending in their own pad value / long messages through the wrapper
+        wl = []
+        for ln in range(0, 49):
+            wl += [(rkey(rng, (16, 24, 32)[ln % 3]), d) for d in padlike_messages(ln)]
+        for nb in (64, 65, 128, 129) if ctx.tier == "quick" else (63, 64, 65, 66, 127, 128, 129, 130, 200, 257):
+            for tail in (0, 15):
+                wl.append((rkey(rng, (16, 24, 32)[nb % 3]), rkey(rng, 16 * nb - tail)))
+        wl += [(rkey(rng, 16), b"\x10" * 16), (rkey(rng, 32), b"\x10" * 32), (rkey(rng, 24), b"")]
+        for k, msg in wl:
+            wrapper_case(k, msg, "(padlike/long)", coq=len(msg) <= 16 * 66 or ctx.tier == "thorough")
+        # valid CBC layer over a plaintext with malformed padding: ValueError exactly where PKCS#7 says
+        for d in malformed:
+            if len(d) % 16 == 0:
+                k, iv = rkey(rng, 16), rkey(rng, 16)
+                ct = iv + ref.cbc_enc(k, iv, d)
                 R.set_history([])
-                ok, ct = R.call("CryptAES.encrypt", CryptAES(k).encrypt, msg)
-                m.secrets.token_bytes = real_token
-                if not ok:
-                    continue
-                ln = len(msg)
-                exp = iv + ref.cbc_enc(k, iv, msg + bytes([16 - ln % 16]) * (16 - ln % 16))
-                R.set_history([])
-                ok2, back = R.call("CryptAES.decrypt", CryptAES(k).decrypt, ct) if ct is not None else (True, None)
-                small = ln <= 16 * 66 or ctx.tier == "thorough"
-                if small:
-                    R.add(f"CStreamEnc {cb(k)} {cb(iv)} {cb(msg)} {copt(ct)}", ("stream-enc", k, iv, msg), True, "CryptAES.encrypt(padlike/long)")
-                    if ok2 and ct is not None:
-                        R.add(f"CStreamDec {cb(k)} {cb(ct)} {copt(back)}", ("stream-dec", k, ct), True, "CryptAES.decrypt(padlike/long)")
-                else:
-                    ctx.case(("stream-long", k, iv, ln), True, "CryptAES(long;py)")
-                if ct != exp or back != msg:
-                    what = ("decrypt(encrypt(m)) returned a %d-byte message for a %d-byte m" % (len(back), ln)) if back is not None and ct == exp else "encrypt != IV||CBC(pad m) or decrypt failed"
-                    ctx.finding(f"stream-padlike-or-long:len%16={ln % 16}:blocks={ln // 16}", f"CryptAES wrapper: {what} (m ends in {msg[-3:].hex()})",
-                                {"key": k, "iv": iv, "message": msg, "ciphertext": ct, "decrypted": back})
-            # valid CBC layer over a plaintext with malformed padding: ValueError exactly where PKCS#7 says
-            for d in malformed:
-                if len(d) % 16 == 0:
-                    k, iv = rkey(rng, 16), rkey(rng, 16)
-                    ct = iv + ref.cbc_enc(k, iv, d)
-                    R.set_history([])
-                    ok, back = R.call("CryptAES.decrypt", CryptAES(k).decrypt, ct)
-                    if ok:
-                        R.add(f"CStreamDec {cb(k)} {cb(ct)} {copt(back)}", ("stream-dec", k, ct), back is not None, "CryptAES.decrypt(malformed-padding)")
-                        if back != ref.unpad(d, 16):
-                            ctx.finding(f"stream-unpad:last-byte={d[-1]}", f"CryptAES.decrypt of a plaintext {d.hex()} returned "
-                                        f"{None if back is None else back.hex()}, PKCS#7 says {ref.unpad(d, 16)}", {"key": k, "ciphertext": ct, "plaintext": d, "got": back})
-            # freshness is not modelled, but the wrapper must at least ask for a new IV each call
-            c1, c2 = CryptAES(keys[0]).encrypt(b"x"), CryptAES(keys[0]).encrypt(b"x")
-            ctx.case(("iv-fresh",), True, "iv-fresh")
-            if c1[:16] == c2[:16]:
-                ctx.finding("iv-reused", "CryptAES.encrypt used the same IV twice", {"c1": c1, "c2": c2})
-            for _ in range(ctx.n(120, 1200)):   # malformed / foreign ciphertexts
-                k = rng.choice(keys)
-                ln = rng.choice([0, 1, 15, 16, 17, 31, 32, 33, 48, 64]) if rng.random() < 0.7 else rng.randrange(0, 80)
-                d = rkey(rng, ln)
-                if ln >= 32 and ln % 16 == 0 and rng.random() < 0.6:   # a valid one with foreign padding amount
-                    msg = rkey(rng, ln - 16 - rng.randrange(1, 17))
-                    pad = ln - 16 - len(msg)
-                    d = d[:16] + ref.cbc_enc(k, d[:16], msg + bytes([pad]) * pad)
-                R.set_history([])
-                ok, back = R.call("CryptAES.decrypt", CryptAES(k).decrypt, d)
+                ok, back = R.call("CryptAES.decrypt", CryptAES(k).decrypt, ct)
                 if ok:
-                    R.add(f"CStreamDec {cb(k)} {cb(d)} {copt(back)}", ("stream-dec", k, d), back is not None, "CryptAES.decrypt(foreign)")
+                    R.add(f"CStreamDec {cb(k)} {cb(ct)} {copt(back)}", ("stream-dec", k, ct), back is not None, "CryptAES.decrypt(malformed-padding)")
+                    if back != ref.unpad(d, 16):
+                        ctx.finding(f"stream-unpad:last-byte={d[-1]}", f"CryptAES.decrypt of a plaintext {d.hex()} returned "
+                                    f"{None if back is None else back.hex()}, PKCS#7 says {ref.unpad(d, 16)}", {"key": k, "ciphertext": ct, "plaintext": d, "got": back})
+        for _ in range(ctx.n(120, 1200)):   # malformed / foreign ciphertexts
+            k = rng.choice(keys)
+            ln = rng.choice([0, 1, 15, 16, 17, 31, 32, 33, 48, 64]) if rng.random() < 0.7 else rng.randrange(0, 80)
+            d = rkey(rng, ln)
+            if ln >= 32 and ln % 16 == 0 and rng.random() < 0.6:   # a valid one with foreign padding amount
+                msg = rkey(rng, ln - 16 - rng.randrange(1, 17))
+                pad = ln - 16 - len(msg)
+                d = d[:16] + ref.cbc_enc(k, d[:16], msg + bytes([pad]) * pad)
+            R.set_history([])
+            ok, back = R.call("CryptAES.decrypt", CryptAES(k).decrypt, d)
+            if ok:
+                R.add(f"CStreamDec {cb(k)} {cb(d)} {copt(back)}", ("stream-dec", k, d), back is not None, "CryptAES.decrypt(foreign)")
+
+        # ---- "a fresh IV": not modelled (the IV is a parameter of the model), but observable: the IVs of a run of calls
+        # are pairwise distinct, and the IV is not a function of process state a caller can set or observe
+        # (the seedable global `random` generator, the clocks): after putting that state back, the IV must not replay.
+        import random as _random
+        import time as _time
+        fk = keys[0]
+        ivs = [CryptAES(fk).encrypt(b"x" * (i % 3))[:16] for i in range(64)]
+        ctx.case(("iv-fresh", "distinct"), True, "iv-fresh")
+        if len(set(ivs)) != len(ivs):
+            ctx.finding("iv-reused", "CryptAES.encrypt used the same IV twice within 64 consecutive calls", {"ivs": ivs})
+        saved_state = _random.getstate()
+        try:
+            for seed in (0, 1, 12345, "s2t"):
+                seq = []
+                for _rep in range(2):
+                    _random.seed(seed)
+                    seq.append([CryptAES(fk).encrypt(b"message %d" % i)[:16] for i in range(3)])
+                ctx.case(("iv-fresh", "random.seed", seed), True, "iv-fresh")
+                if any(x == y for x, y in zip(*seq)):
+                    ctx.finding("iv-replays-after-random.seed", f"CryptAES.encrypt: after random.seed({seed!r}) the same IV sequence is drawn again "
+                                f"({seq[0][0].hex()} twice) — the IV is a function of the global, seedable random generator, not fresh",
+                                {"seed": seed, "ivs_first": seq[0], "ivs_again": seq[1], "environment": "random.seed(seed) before each run of 3 encryptions"})
         finally:
-            m.secrets.token_bytes = real_token
+            _random.setstate(saved_state)
+        clocks = {n_: getattr(_time, n_) for n_ in ("time", "time_ns", "monotonic", "monotonic_ns", "perf_counter", "perf_counter_ns")}
+        try:
+            for n_, f_ in clocks.items():
+                setattr(_time, n_, (lambda v: (lambda: v))(1_700_000_000 * (10 ** 9 if n_.endswith("_ns") else 1)))
+            frozen = [CryptAES(fk).encrypt(b"m")[:16] for _ in range(4)]
+        finally:
+            for n_, f_ in clocks.items():
+                setattr(_time, n_, f_)
+        ctx.case(("iv-fresh", "frozen-clock"), True, "iv-fresh")
+        if len(set(frozen)) != len(frozen):
+            ctx.finding("iv-replays-with-frozen-clock", "CryptAES.encrypt draws the same IV when the clocks do not advance", {"ivs": frozen})
+
     ctx.obligation("cryptaes-wrapper-exercised(pypdf on the fallback provider, patch applied)", bool(patched),
                    str(ctx.extra.get("cryptaes_wrapper", "patch_pypdf_fallback_aes() returned False")))
     m._ROUND_KEY_CACHE.clear()
